@@ -193,7 +193,12 @@ def run_random(desc, ctx):
         ul, lc, uu, uc = attach.BIN_TABLE[b]
         ths = [t0, t1] if (ul and uu) else [t0]
         iv = verif.util.get_intervals(b, np.array(ths))[0]
-        vals = [t0 - 1, t0, (t0 + t1) / 2, t1, t1 + 1, NAN]
+        vals = [t0 - 1, t0, (t0 + t1) / 2, t1, t1 + 1]
+        if rng.random() < 0.6:
+            # the data need not extend beyond the thresholds: a threshold may be the largest / smallest value present
+            vals = sorted(rng.sample(vals, rng.randint(2, 4)))
+            ctx.count("random_tables_with_threshold_at_data_extreme", 1 if (vals[-1] in ths or vals[0] in ths) else 0)
+        vals = vals + [NAN]
         w = [rng.random() for _ in vals]
         obs = rng.choices(vals, w, k=n)
         fc = rng.choices(vals, [rng.random() for _ in vals], k=n)
@@ -230,7 +235,8 @@ def run_cli(desc, ctx):
     d = os.path.join(ctx.workdir, "cli")
     os.makedirs(d, exist_ok=True)
     ts = sorted(rng.sample([0.0, 1.0, 2.0, 3.0, 5.0], 3))
-    grid = sorted(set([ts[0] - 1] + ts + [(ts[0] + ts[1]) / 2, (ts[1] + ts[2]) / 2, ts[2] + 1]))
+    grid = sorted(set(([ts[0] - 1] if rng.random() < 0.5 else []) + ts + [(ts[0] + ts[1]) / 2, (ts[1] + ts[2]) / 2] +
+                      ([ts[2] + 1] if rng.random() < 0.5 else [])))      # a threshold may be the data maximum / minimum
     inp = gen.make_input(rng, "cat.txt", "text", gen.pick_times(rng, 4), [0, 12, 24], gen.LOC_POOL[:3])
     for c in inp["cells"].values():
         c["obs"] = rng.choice(grid + [None])
